@@ -84,6 +84,8 @@ def arg_unsrc(text):
 
 V4 = uuid.UUID("7e1c1b6e-2c2f-4c8b-9b8e-1d2a3b4c5d6e")
 V1 = uuid.UUID("51c2f442-bf61-11f1-b9da-02fc00000001")
+# version nibble 4 but not an RFC 4122 variant: UUID.version is None for it
+V4_NCS = uuid.UUID("7e1c1b6e-2c2f-4c8b-1b8e-1d2a3b4c5d6e")
 DT = _dt.datetime(2020, 1, 2, 3, 4, 5)
 D = _dt.date(2020, 1, 2)
 WRONG = [None, "x", 1.5, True, [], {}, E, Nil, _OBJ, -1, b"b"]
@@ -125,7 +127,7 @@ def alphabet(kind, tier):
     if kind == "bytes":
         return [(c, (v,)) for v in (b"", b"ab", "a", bytearray(b"a"), None, E)]
     if kind == "uuid4":
-        return [(c, (v,)) for v in (V4, V1, str(V4), None, E)]
+        return [(c, (v,)) for v in (V4, V1, V4_NCS, str(V4), None, E)]
     if kind == "datetime":
         return [(c, (v,)) for v in (DT, D, "x", None, E)]
     if kind == "date":
